@@ -65,6 +65,7 @@ PROPS = {
     "C09": dict(scans=lambda p, s, t: [scan.scan_immutables(p, s, t)]),
     "C10": dict(scans=_scans_state_writers),
     "C11": dict(scans=lambda p, s, t: [scan.scan_immutables(p, s, t)]),
+    "C16": dict(scans=_scan_suspend),
     "C17": dict(scans=_scan_suspend),
     "C18": dict(scans=_scan_suspend),
 }
